@@ -5,7 +5,8 @@
 (*   no illegal character; brackets balance; a binary-only operator is not  *)
 (*   followed by another binary-only operator; a literal is never assigned  *)
 (*   to; `return` only inside a function body; `break`/`continue` only      *)
-(*   inside the body block of a loop.                                       *)
+(*   inside the body block of a loop; a statement keyword only where a      *)
+(*   statement may start.                                                   *)
 (* Every host satisfies them (law); every spliced variant violates one      *)
 (* (law), hence is not a program, hence must be refused with a syntax error *)
 (* before anything runs (C11).  Splices: insert one of the catalogue at any *)
@@ -76,10 +77,18 @@ LoopBody(ts, i, depth, pending, stack) ==
           ELSE here \cup LoopBody(ts, i + 1, depth, pending, stack)
 BreakInLoop(ts) == \A i \in 1..Len(ts) : ts[i] \in {"break", "continue"} => i \in LoopBody(ts, 1, 0, FALSE, <<>>)
 
-WellFormed(ts) == /\ NoIllegal(ts) /\ Balanced(ts) /\ NoBinBin(ts) /\ NoLiteralAssign(ts)
-                  /\ ReturnInFn(ts) /\ BreakInLoop(ts)
+\* a statement keyword only starts a statement: it is the first token or follows "{", "}", ";", ")" (the
+\* header of if / while / for) or "else" -- never an operator, "=>", a comma, an opening "(" / "[", a
+\* literal, a name or another keyword
+StmtKw == {"print", "if", "while", "for", "next", "exit", "return", "break", "continue"}
+StmtStartPrev == {"{", "}", ";", ")", "else"}
+KwAtStart(ts) == \A i \in 1..Len(ts) : ts[i] \in StmtKw => (i = 1 \/ ts[i-1] \in StmtStartPrev)
 
-Catalogue == << <<"@">>, <<")">>, <<"]">>, <<"}">>, <<"(">>, <<"==", "*">>, <<"1", "=", "2">>, <<"return">>, <<"break">>, <<"continue">> >>
+WellFormed(ts) == /\ NoIllegal(ts) /\ Balanced(ts) /\ NoBinBin(ts) /\ NoLiteralAssign(ts)
+                  /\ ReturnInFn(ts) /\ BreakInLoop(ts) /\ KwAtStart(ts)
+
+Catalogue == << <<"@">>, <<")">>, <<"]">>, <<"}">>, <<"(">>, <<"==", "*">>, <<"1", "=", "2">>, <<"return">>, <<"break">>, <<"continue">>,
+                <<"print", "1">>, <<"next">>, <<"exit">>, <<"if", "(", "1", ")", "{", "}">>, <<"while", "(", "0", ")", "{", "}">>, <<"return", "1">> >>
 
 VARIABLES h, pos, sp, done
 vars == <<h, pos, sp, done>>
@@ -94,9 +103,8 @@ Spliced == LET ts == Hosts[h] IN
 
 \* a `return` spliced into a function body, or a break / continue spliced into a loop body,
 \* is no static error there: not a splice of this family
-Applicable ==
-  /\ ~(sp > 0 /\ Catalogue[sp] = <<"return">> /\ ReturnInFn(Spliced))
-  /\ ~(sp > 0 /\ Catalogue[sp] \in {<<"break">>, <<"continue">>} /\ BreakInLoop(Spliced))
+\* (likewise a statement keyword spliced in where a statement may start)
+Applicable == ~(sp > 0 /\ Head(Catalogue[sp]) \in StmtKw /\ WellFormed(Spliced))
 
 HostsWellFormed == \A i \in 1..Len(Hosts) : WellFormed(Hosts[i])
 SplicedIllFormed == (done /\ Applicable) => ~WellFormed(Spliced)
